@@ -209,7 +209,7 @@ class ManagementApi(object):
 
         :rtype: dict
         """
-        return self.http_client.get(API_NODE % name)
+        return self.http_client.get(API_NODE % quote(name, ''))
 
     def nodes(self):
         """Get Nodes.
@@ -241,7 +241,9 @@ class ManagementApi(object):
         """
         nodes = []
         for node in self.nodes():
-            nodes.append(self.http_client.get(API_TOP % node['name']))
+            nodes.append(self.http_client.get(
+                API_TOP % quote(node['name'], '')
+            ))
         return nodes
 
     def whoami(self):
